@@ -35,6 +35,37 @@ type CaseC19 struct {
 
 var c19Kinds = []string{"good", "empty", "truncated", "random", "subdir", "dangling-symlink", "vanishes"}
 
+// c19PadSizes are exact file sizes at chunk boundaries of plausible read loops.
+var c19PadSizes = []int{512, 4096, 8192, 32768, 65536, 98304, 131072}
+
+// c19Pad appends an unknown length-delimited field (number 1999, inside the message's extension range) so that the feed is
+// exactly n bytes long; it still parses to the same content.
+func c19Pad(feed []byte, n int) []byte {
+	for hdr := 3; hdr <= 6; hdr++ { // tag (2 bytes) + length varint (1-4 bytes)
+		payload := n - len(feed) - hdr
+		if payload < 0 {
+			return feed
+		}
+		var l []byte
+		for v := uint64(payload); ; {
+			b := byte(v & 0x7f)
+			v >>= 7
+			if v != 0 {
+				l = append(l, b|0x80)
+			} else {
+				l = append(l, b)
+				break
+			}
+		}
+		if 2+len(l) == hdr {
+			out := append(append([]byte(nil), feed...), 0xfa, 0x7c) // field 1999, wire type 2
+			out = append(out, l...)
+			return append(out, make([]byte, payload)...)
+		}
+	}
+	return feed
+}
+
 var c19Rec = vt.NewRecorder("C19", "TestC19",
 	"generated directories of 0-10 entries with generated names (ASCII, spaces, leading dots, non-ASCII, names whose byte order differs from numeric order, upper/lower case) x entry kind in "+
 		"{good feed, empty file, truncated good feed, random bytes, sub-directory, dangling symlink, file deleted between listing and reading}. Oracle (differential): the values of Next() until nil, then 3 more nils, equal "+
@@ -215,6 +246,9 @@ func c19Entry(kind string, name string, i int, variant int, t *rapid.T) DirEntry
 	switch kind {
 	case "good", "vanishes":
 		e.Data = c19GoodFeed(i, variant)
+		if t != nil && rapid.IntRange(0, 9).Draw(t, "padded") == 0 {
+			e.Data = c19Pad(e.Data, rapid.SampledFrom(c19PadSizes).Draw(t, "padTo"))
+		}
 	case "empty":
 		e.Data = []byte{}
 	case "truncated":
@@ -281,7 +315,7 @@ func TestC19(t *testing.T) {
 		used := map[string]bool{}
 		if rapid.IntRange(0, 19).Draw(t, "longBadRun") == 0 {
 			// a long run of consecutive bad entries between good files
-			run := rapid.SampledFrom([]int{31, 32, 33, 64, 65, 130}).Draw(t, "badRunLen")
+			run := rapid.SampledFrom([]int{31, 32, 33, 64, 65, 130, 257}).Draw(t, "badRunLen")
 			c.Entries = append(c.Entries, c19Entry("good", "a-first", 0, 1, nil))
 			used["a-first"] = true
 			for i := 0; i < run; i++ {
@@ -293,6 +327,13 @@ func TestC19(t *testing.T) {
 			}
 			c.Entries = append(c.Entries, c19Entry("good", "c-last", 5, 2, nil))
 			used["c-last"] = true
+		} else if rapid.IntRange(0, 79).Draw(t, "manyGood") == 0 {
+			// many good files
+			for i, k := 0, rapid.SampledFrom([]int{65, 130}).Draw(t, "manyGoodN"); i < k; i++ {
+				name := fmt.Sprintf("g%04d", i)
+				used[name] = true
+				c.Entries = append(c.Entries, c19Entry("good", name, i%50, i, nil))
+			}
 		}
 		for i := 0; i < n; i++ {
 			name := fmt.Sprintf(rapid.SampledFrom(c19NameShapes).Draw(t, "nameShape"), rapid.IntRange(0, 12).Draw(t, "nameN"))
@@ -347,6 +388,17 @@ func TestC19Enum(t *testing.T) {
 				x /= len(c19Kinds)
 			}
 			run(c, fmt.Sprintf("pattern-length-%d", l))
+		}
+	}
+	// good files of exact sizes (chunk boundaries of read loops), alone and between other good files
+	for _, size := range c19PadSizes {
+		for _, delta := range []int{-1, 0, 1} {
+			var c CaseC19
+			c.Entries = append(c.Entries, c19Entry("good", "a", 0, 0, nil))
+			e := c19Entry("good", "b", 1, 1, nil)
+			e.Data = c19Pad(e.Data, size+delta)
+			c.Entries = append(c.Entries, e, c19Entry("good", "c", 2, 2, nil))
+			c19EnumRun(c, "exact-file-size", &idx, shard, shards, t)
 		}
 	}
 	// long runs of one bad kind between two good files
